@@ -91,7 +91,9 @@ def _addressing(a, res, o):
         shape = (v[0], tuple(np.asarray(v[1]).shape) if v[0] == "array" else None)
     part = sorted((b.kind, tuple(sorted(b.members))) for b in o.blocks) if o is not None else None
     dead = sorted(s for s in o.sub if o.sub[s]["measured"]) if o is not None else None
-    return {"ok": res.ok, "keys": keys, "shape": shape, "partition": part, "destroyed": dead}
+    members = sorted((tuple(sorted(c["handles"])), tuple(sorted(c["state_objs"])), tuple(sorted(c["envelopes"])))
+                     for c in o.containers if c["handles"]) if o is not None else None
+    return {"ok": res.ok, "keys": keys, "shape": shape, "partition": part, "destroyed": dead, "members": members}
 
 
 def compare_c18(T, twin_leaf, Obs):
@@ -111,6 +113,9 @@ def compare_c18(T, twin_leaf, Obs):
         if A0[f] != At[f]:
             V.append(_viol("C18", "addressing" if f != "keys" else "one-entry", T, f + "-differ",
                            f"{f}: equal-valued world {A0[f]} vs distinct-valued twin {At[f]}"))
+    if A0["members"] != At["members"]:
+        V.append(_viol("C18", "addressing", T, "membership-differs",
+                       f"composite membership: equal-valued world {A0['members']} vs distinct-valued twin {At['members']}"))
     if A0["partition"] != At["partition"]:
         V.append(_viol("C18", "addressing", T, "partition-differs",
                        f"blocks: equal-valued world {A0['partition']} vs distinct-valued twin {At['partition']}"))
